@@ -182,6 +182,9 @@ func (m *Machine) visitInstr(fr *frame, instr ssa.Instruction) continuation {
 		if addr == nil {
 			panic(targetPanic{v: "runtime error: invalid memory address or nil pointer dereference"})
 		}
+		if m.exploreSched {
+			m.recordValueAccess("write", addr)
+		}
 		store(nil, addr, fr.get(instr.Val))
 
 	case *ssa.If:
@@ -222,6 +225,9 @@ func (m *Machine) visitInstr(fr *frame, instr ssa.Instruction) continuation {
 	case *ssa.Go:
 		fn, args := m.prepareCall(fr, &instr.Call)
 		m.spawn(fn, args, instr.Pos())
+		if m.exploreSched {
+			m.record("spawn", nil, len(m.sched.gors)-1)
+		}
 
 	case *ssa.MakeChan:
 		fr.env[instr] = &schan{cap: int(m.concInt(fr.get(instr.Size), "channel size")),
@@ -267,6 +273,9 @@ func (m *Machine) visitInstr(fr *frame, instr ssa.Instruction) continuation {
 		fr.env[instr] = newSmap(instr.Type().Underlying().(*types.Map).Key())
 
 	case *ssa.Range:
+		if sm, ok := fr.get(instr.X).(*smap); ok && m.exploreSched {
+			m.record("mread", sm, 0)
+		}
 		fr.env[instr] = m.rangeIter(fr, fr.get(instr.X), instr.X.Type())
 
 	case *ssa.Next:
@@ -333,10 +342,16 @@ func (m *Machine) visitInstr(fr *frame, instr ssa.Instruction) continuation {
 		}
 
 	case *ssa.Lookup:
+		if sm, ok := fr.get(instr.X).(*smap); ok && m.exploreSched {
+			m.record("mread", sm, 0)
+		}
 		fr.env[instr] = m.lookup(instr, fr.get(instr.X), fr.get(instr.Index))
 
 	case *ssa.MapUpdate:
 		mp := fr.get(instr.Map).(*smap)
+		if m.exploreSched {
+			m.record("mwrite", mp, 0)
+		}
 		mp.insert(m, fr.get(instr.Key), copyVal(fr.get(instr.Value)))
 
 	case *ssa.TypeAssert:
@@ -611,6 +626,9 @@ func (m *Machine) unop(fr *frame, instr *ssa.UnOp, x value) value {
 		p := x.(*value)
 		if p == nil {
 			panic(targetPanic{v: "runtime error: invalid memory address or nil pointer dereference"})
+		}
+		if m.exploreSched {
+			m.recordValueAccess("read", p)
 		}
 		return load(nil, p)
 	}
@@ -988,6 +1006,9 @@ func (m *Machine) callBuiltin(caller *frame, callpos token.Pos, fn *ssa.Builtin,
 		return nil
 
 	case "delete":
+		if m.exploreSched {
+			m.record("mwrite", args[0].(*smap), 0)
+		}
 		args[0].(*smap).delete(m, args[1])
 		return nil
 
